@@ -208,3 +208,108 @@ func (g *G) AnyValue(depth int) Value {
 	}
 	return M(m)
 }
+
+// SyntaxExpr draws an arbitrary (not necessarily well-typed) expression tree
+// over every node kind and literal spelling, for the print/parse round trip.
+func (g *G) SyntaxExpr(depth int) *Expr {
+	e := g.syntax1(depth)
+	if g.Chance(10) {
+		e.Paren = true
+	}
+	if IsBinary(e.Op) && g.Chance(30) {
+		e.Tight = true
+	}
+	return e
+}
+
+var syntaxStrings = []string{"", "a", "it's", "back\\slash", "new\nline", "tab\t", "\r", "quote\"d", "é", "日本", "𝄞", "{}", "a}b", "\x01", " ", "'", "\\'", "x y", "</script>", "\b\f"}
+var syntaxFloats = []string{"0.0", "1.0", "2.5", "100.0", "1e3", "1.5e-3", "6.02e23", "0.001", "123456789.125", "1e21", "1e-7", "5e0"}
+var syntaxIdents = []string{"x", "foo", "a_b", "camelCase", "X9", "_u"}
+
+func (g *G) syntax1(depth int) *Expr {
+	if depth <= 0 || g.Chance(25) {
+		switch g.Intn(9) {
+		case 0:
+			return &Expr{Op: "null"}
+		case 1:
+			return &Expr{Op: "bool", B: g.Chance(50)}
+		case 2:
+			e := &Expr{Op: "int", I: []int64{0, 1, 7, 42, 255, 1 << 31, 1<<53 - 1, 9223372036854775807}[g.Intn(8)]}
+			if g.Chance(20) {
+				e.Hex = true
+			} else if g.Chance(25) {
+				e.I = -e.I
+			}
+			return e
+		case 3:
+			t := syntaxFloats[g.Intn(len(syntaxFloats))]
+			if g.Chance(25) {
+				t = "-" + t
+			}
+			return &Expr{Op: "float", Text: t}
+		case 4:
+			return &Expr{Op: "str", S: syntaxStrings[g.Intn(len(syntaxStrings))], Esc: g.Intn(2)}
+		case 5:
+			return &Expr{Op: "global", Name: g.Pick("GLOBAL", "app.NAME", "a.b.c", "flag")}
+		default:
+			e := &Expr{Op: "ref", Name: g.Pick("x", "foo", "ij", "a_b", "item")}
+			for i, n := 0, g.Intn(4); i < n; i++ {
+				switch g.Intn(3) {
+				case 0:
+					e.Access = append(e.Access, Access{Kind: "key", Key: syntaxIdents[g.Intn(len(syntaxIdents))], NullSafe: g.Chance(30)})
+				case 1:
+					e.Access = append(e.Access, Access{Kind: "index", Index: g.Intn(12), NullSafe: g.Chance(30)})
+				case 2:
+					e.Access = append(e.Access, Access{Kind: "expr", Expr: g.SyntaxExpr(depth - 1), NullSafe: g.Chance(30)})
+				}
+			}
+			return e
+		}
+	}
+	d := depth - 1
+	switch g.Weighted(45, 10, 8, 10, 8, 8) {
+	case 0:
+		op := g.Pick("*", "/", "%", "+", "-", "<", ">", "<=", ">=", "==", "!=", "and", "or", "?:")
+		a, b := g.SyntaxExpr(d), g.SyntaxExpr(d)
+		if op == "?:" {
+			for _, c := range []*Expr{a, b} {
+				if c.Op == "?:" || c.Op == "tern" {
+					c.Paren = true // the mutual nesting of ?: and ? : is always written with parentheses
+				}
+			}
+		}
+		return &Expr{Op: op, Args: []*Expr{a, b}}
+	case 1:
+		return &Expr{Op: g.Pick("neg", "not"), Args: []*Expr{g.SyntaxExpr(d)}}
+	case 2:
+		c := g.SyntaxExpr(d)
+		if c.Op == "?:" || c.Op == "tern" {
+			c.Paren = true
+		}
+		return &Expr{Op: "tern", Args: []*Expr{c, g.SyntaxExpr(d), g.SyntaxExpr(d)}}
+	case 3:
+		e := &Expr{Op: "call", Name: g.Pick("length", "round", "max", "isNonnull", "myFunc", "index", "range", "hasData")}
+		for i, n := 0, g.Intn(4); i < n; i++ {
+			e.Args = append(e.Args, g.SyntaxExpr(d))
+		}
+		return e
+	case 4:
+		e := &Expr{Op: "list"}
+		for i, n := 0, g.Intn(4); i < n; i++ {
+			e.Args = append(e.Args, g.SyntaxExpr(d))
+		}
+		return e
+	}
+	e := &Expr{Op: "map"}
+	seen := map[string]bool{}
+	for i, n := 0, g.Intn(4); i < n; i++ {
+		k := g.Pick("a", "b", "key", "it's", "q\"uote", "back\\slash", "", "new\nline", "é", "a b")
+		if seen[k] {
+			continue
+		}
+		seen[k] = true
+		e.Keys = append(e.Keys, k)
+		e.Args = append(e.Args, g.SyntaxExpr(d))
+	}
+	return e
+}
